@@ -42,7 +42,7 @@ partial def xdeclOfJson (j : Json) : Except String XDecl := do
       ignoreNone := ← optBool j "ignoreNone" false
       accepts := ← strList j "accepts" }
     let fields ← (← kvList j "fields").mapM fun (k, d) => do pure (k, ← xdeclOfJson d)
-    pure (.struct c fields)
+    if ← optBool j "undef" false then pure (.structU c fields) else pure (.struct c fields)
   | k => throw s!"xdecl kind {k}"
 
 def xoraclesOfJson (j : Json) : Except String XOracles := do
